@@ -663,13 +663,22 @@ def report(prop, cfg, args, results, seed, t0, th, unsafe_hits, exp_s, scratch, 
         import replay
         for f, _k in viol:
             path, found = replay.write(prop, f, results, scratch, REPO)
+            try:
+                refuted = json.load(open(path)).get('refuted_on_real_code')
+            except Exception:
+                refuted = False
+            if refuted:
+                # a counterexample that the real code answers correctly is a disagreement between the tools (e.g. a stale build
+                # artefact), not a fact about /repo: undecided, never an alarm
+                undec.append('%s: the verifier\'s counterexample does not reproduce on the real code (see %s)' % (f['obligation'], path))
+                continue
             line = 'VIOLATION property=%s replay=%s' % (prop, path)
             if not found:
                 line += ' obligation=%s no-failing-input-found' % f['obligation']
             else:
                 line = 'VIOLATION property=%s replay=%s' % (prop, path)
             vio_lines.append(line)
-        rc = 1
+        rc = 1 if vio_lines else 0
     # bounded stand-in on the REAL interpreter (labelled bounded, never counted as proved): always in the thorough tier, and
     # whenever the proof is undecided; it can raise an alarm only through a concrete failing input of the real code
     bounded = None
